@@ -31,3 +31,20 @@ func verifInit(s *Scheduler) {
 		s.pause = VerifPause
 	}
 }
+
+// VerifOrder, when set, decides the order in which a scheduling pass visits the stages. Go leaves
+// map iteration order unspecified, so any order is a legal execution; the simulated build
+// (bin/build.sh in /verif rewrites `range g.Nodes()` to `range verifNodes(g.Nodes())` in its
+// overlay copy of this package) makes it a seeded, replayable choice.
+var VerifOrder func(nodes map[string]*Stage) []*Stage
+
+func verifNodes(nodes map[string]*Stage) []*Stage {
+	if f := VerifOrder; f != nil {
+		return f(nodes)
+	}
+	out := make([]*Stage, 0, len(nodes))
+	for _, s := range nodes {
+		out = append(out, s)
+	}
+	return out
+}
